@@ -224,6 +224,23 @@ def exact_worker(N):
                     f = lambda x, g=None, i=i, j=j: (x**i if i else x * 0 + 1) + (x**j if j else x * 0 + 1)
                     got = SR.lift(sem(f, SR.const(0), SR.const(1)))
                     want = Bf(i, i) + Bf(j, j) + 2 * Bf(i, j)
+                    # the same polynomial on the shortest interval of the property's range, away from the origin:
+                    # [7, 7 + 1/900] (sqrt(h) = 1/30 rational); closed form by translation and homogeneity
+                    h_s, a_s = Fraction(1, 900), Fraction(7)
+                    eng.register_sqrt(SR.const(h_s), SR.const(Fraction(1, 30)))
+                    fs = lambda x, g=None, i=i, j=j: ((x - a_s)**i if i else x * 0 + 1) + ((x - a_s)**j if j else x * 0 + 1)
+                    got_s = SR.lift(sem(fs, SR.const(a_s), SR.const(a_s + h_s)))
+                    ex = Fraction(1, 30) if name == 'H^{1/4}' else Fraction(1)
+                    want_s = (Bf(i, i) * h_s**(2 * i) + Bf(j, j) * h_s**(2 * j) + 2 * Bf(i, j) * h_s**(i + j)) * ex
+                    if got_s.is_const():
+                        gs = got_s.const_value()
+                        res['evaluations'] += 1
+                        ok_s, _ = eng.prove(z3bool(SR.const(abs(gs - want_s)) <= SR.const(TOL * max(abs(want_s), Fraction(1, 10**40)))),
+                                            'exactness-short')
+                        if not ok_s and want_s != 0:
+                            viol('exactness-short:%s' % name, '%s order %d: (x-a)^%d + (x-a)^%d on [7, 7+1/900] gives %.15g, '
+                                 'closed form %.15g' % (name, order, i, j, float(gs), float(want_s)))
+                            break
                     res['evaluations'] += 1
                     res['nontrivial'] += 1
                     if not got.is_const():
@@ -269,6 +286,14 @@ def replay(rp):
                         got = float(sem(f, 0.0, 1.0))
                         want = float(Bf(i, i) + Bf(j, j) + 2 * Bf(i, j))
                         if abs(got - want) > 1e-11 * max(abs(want), 1e-6):
+                            return True
+                        h_s, a_s = 1.0 / 900, 7.0
+                        fs = lambda x, g=None: (x - a_s)**i + (x - a_s)**j
+                        got_s = float(sem(fs, a_s, a_s + h_s))
+                        ex = (1.0 / 30) if name == '14' else 1.0
+                        want_s = float(Bf(i, i)) * h_s**(2 * i) * ex + float(Bf(j, j)) * h_s**(2 * j) * ex + \
+                            2 * float(Bf(i, j)) * h_s**(i + j) * ex
+                        if want_s != 0 and abs(got_s - want_s) > 1e-9 * abs(want_s):
                             return True
             return False
         # invariances: concrete numbers
